@@ -100,3 +100,21 @@ Definition shared_keyring (ctx cid : bytes) : lookup_result :=
   if str_eqb ctx srv_ctx then
     if str_eqb cid srv_cookie_id then LCookie srv_cookie else LNoCookie
   else LRaised.
+
+(* keyrings that cannot answer the server's challenge:
+   no cookie can be looked up at all (no keyring directory, or one the client
+   must not use: _authGetDBusCookie raises for every context and id) *)
+Definition no_keyring (ctx cid : bytes) : lookup_result := LRaised.
+
+(* the server's context file exists but does not hold the challenged id
+   (_authGetDBusCookie returns None); other contexts do not exist *)
+Definition other_keyring (ctx cid : bytes) : lookup_result :=
+  if str_eqb ctx srv_ctx then LNoCookie else LRaised.
+
+(* the client has given up - closed without authenticating -, the server has seen
+   the connection drop, nothing is in flight: the run is over (sys_step changes
+   nothing any more) and nobody waits for anybody *)
+Definition gave_up (y : sys) : bool :=
+  p_closed (y_c y) && negb (p_done (y_c y))
+  && match y_s y with SDead => true | _ => false end
+  && match y_to_s y, y_to_c y with [], [] => true | _, _ => false end.
